@@ -68,6 +68,7 @@ CLAUSE_PROPERTY = {
     "TM_ESS": "C12",
     "TM_Evidence": "C12",
     "NoRaise": "C18",
+    "RZ_UnfittedPredict": "C14",
     "PO_EqualLen": "C12",
     "PO_Rows": "C12",
     "PO_LogwRows": "C12",
@@ -544,7 +545,7 @@ class Recorder:
         if self._ev is None:
             self._ev = []
             self._cfg = self._cfg or {}
-        self._emit("Raised", what=repr(exc)[:300], step=(self._ev[-2]["ev"] if len(self._ev) > 1 else "start"))
+        self._emit("Raised", what=repr(exc)[:300], step=(self._ev[-1]["ev"] if self._ev else "start"))
 
     def posterior_event(self, flags, out, blobs_configured):
         """Project one posterior() call (C12)."""
